@@ -1,7 +1,8 @@
 """C13 - a crash between persistence steps never leaves a service unusable.
 
 Monitor shape: fault enumeration. The component under crash (the server while it handles `config` / `upload`, or the
-client in create-service, generate-key, encrypt-database, upload-config+ack+close, upload-index+ack+close) runs as a
+client in create-service - the handler and the whole command with its alias table -, generate-key, encrypt-database,
+upload-config+ack+close, upload-index+ack+close) runs as a
 REAL subprocess with file-system interposition loaded first (vlib/fsint.py): a count run numbers every mutation
 (mkdir, open-for-write, each write, unlink, rename/replace) of the step, then one run per (event k, before | after)
 cuts the process with os._exit(137) exactly there.  The peer component and the whole recovery run in the worker
@@ -24,7 +25,8 @@ from vlib.common import exc_site, fp, VERIF_DIR, PYTHON
 
 LEVEL = "fault_enumeration"
 SHARD_TIMEOUT = {"quick": 290, "thorough": 1750}
-CLIENT_STEPS = ["create", "key", "encrypt", "upcfg", "upedb"]
+CLIENT_STEPS = ["create", "create-named", "key", "encrypt", "upcfg", "upedb"]
+SNAME = "my-service"
 SERVER_STEPS = ["config", "upload"]
 ORDER = ["create", "key", "encrypt", "upcfg", "upedb"]
 B_CFG, B_CFGUP, B_KEY, B_ENC, B_DBUP = 1, 2, 4, 8, 16
@@ -150,6 +152,7 @@ class Lab:
         if r[0] != "ok":
             raise RuntimeError(f"template build: upload index failed {r}")
         snap("done")
+        self.templates["create-named"] = self.templates["create"]
         self.templates["config"] = self.templates["upcfg"]
         self.templates["upload"] = self.templates["upedb"]
 
@@ -176,6 +179,11 @@ class Lab:
             args = {"uri": self.server.uri, "sid": self.sid}
             if step == "create":
                 args = {"cfg": self.cfg}
+            if step == "create-named":
+                cfg_path = os.path.join(home, "cfg.json")
+                json.dump(self.cfg, open(cfg_path, "w"))
+                args = {"cfg_path": cfg_path, "sname": SNAME}
+                res["sid"] = None
             if step == "encrypt":
                 args["db"] = {k.hex(): [i.hex() for i in v] for k, v in self.db.items()}
             p = await self.spawn(home, ["client", step, json.dumps(args)], crash, log)
@@ -250,6 +258,45 @@ class Lab:
         await conn.close()
         await self.quiesce()
         trace.append("probe connection closed and cleaned up")
+
+    def alias_lookup(self, home):
+        """(sid or None, error or None) for SNAME through a fresh view of the alias table of this home."""
+        import frontend.client.services.service_name_handler as snh
+        snh._PROGRAM_DIR_PATH = pathlib.Path(home) / ".sse" / "client"
+        snh.SERVICE_MAPPING_PATH = snh._PROGRAM_DIR_PATH / "service_mapping.json"
+        snh.read_service_mapping, snh.write_service_mapping = snh._get_service_mapping_read_and_write_function()
+        try:
+            return snh.get_service_id_by_sname(SNAME), None
+        except KeyError:
+            return None, None
+        except Exception as e:
+            return None, e
+
+    async def recover_named(self, home, trace):
+        """After a crash inside the create-service COMMAND: the alias resolves, or creating the service again under
+        the same alias works; then the ordinary recovery with the sid the alias gives."""
+        import contextlib as cl
+        import io
+        import frontend.client.commands as cmds
+        self.retarget(home)
+        sid, err = self.alias_lookup(home)
+        if err is not None:
+            return ("alias-table", f"the alias table cannot be read after the crash: {type(err).__name__}: {err}")
+        if sid is None:
+            out = io.StringIO()
+            try:
+                with cl.redirect_stdout(out):
+                    cmds.create_service(os.path.join(home, "cfg.json"), SNAME)
+            except Exception as e:
+                return ("create-again", f"create-service under the same alias raised {type(e).__name__}: {e}")
+            sid, err = self.alias_lookup(home)
+            trace.append(f"alias not registered; create-service again printed {out.getvalue().strip()[-70:]!r}")
+            if sid is None:
+                return ("create-again", f"after the crash create-service under the same alias does not register it: "
+                                        f"{out.getvalue().strip()[-120:]!r}")
+        else:
+            trace.append("alias resolves after the crash")
+        return await self.recover_and_finish(home, sid, trace)
 
     async def recover_and_finish(self, home, sid, trace):
         """Returns None when the workflow ends in correct searches, else (stage, message)."""
@@ -371,7 +418,7 @@ async def amain(spec, acc, ctx):
         return
     # the count run itself must end in a working service
     tr = []
-    bad = await lab.recover_and_finish(home, res.get("sid"), tr)
+    bad = await (lab.recover_named(home, tr) if step == "create-named" else lab.recover_and_finish(home, res.get("sid"), tr))
     if bad:
         acc.violation(f"crash:{component}:{step}:no-crash-baseline-fails:{bad[0]}",
                       f"{scheme}: even without a crash the workflow does not complete after {component}/{step}: {bad[1]}",
@@ -407,7 +454,10 @@ async def amain(spec, acc, ctx):
                 home_b = home + "-probe"
                 shutil.copytree(home, home_b)
             try:
-                bad = await lab.recover_and_finish(home, res.get("sid"), trace)
+                if step == "create-named":
+                    bad = await lab.recover_named(home, trace)
+                else:
+                    bad = await lab.recover_and_finish(home, res.get("sid"), trace)
                 if not bad and home_b:
                     # the same crashed directory once more, recovered by the second policy (look first, then retry)
                     trace2 = [trace[0], "policy: probe connection first"]
